@@ -12,7 +12,7 @@ def ccin(d):
     return "(mkcin %s %s %s %s %s %s %s %s %s)" % (civs(d["exons"]), cbool(d["noninf"]), cbool(d["has_match"]), clist(d["events"], cev), civs(d["known"]),
                                                     civ(d["isoreg"]), civs(d["iso_introns"]), clist(d["oracle"], cerrs), cz(d["delta"]))
 def cout(r): return "(Raises %d)" % r[1] if r[0] == "raises" else "(Ok %s)" % civs(r[1])
-def ccalls(calls): return clist(calls, lambda c: "(%s,%s,%s,%s)" % (cz(c[0]), cz(c[1]), cz(c[2]), cbool(c[3])))
+def ccalls(calls): return clist(calls, lambda c: "(%s,%s,%s,%s)" % (cz(c[0]), cz(c[1]), cz(c[2]), cbool(c[3]))) if calls else "(@nil (Z*Z*Z*bool))"   # typed: a shard of call-free cases must still infer
 
 STRATEGIES = ["none", "default_pacbio", "conservative_ont", "default_ont", "all", "assembly"]
 FLAG_FIELDS = ["correct_fuzzy_junctions", "correct_intron_shifts", "correct_skipped_exons", "correct_terminal_exons", "correct_fake_terminal_exons", "correct_microintron_retention"]
@@ -657,6 +657,9 @@ def pipeline_level(ctx, quick):
                 left, right = terminal_listed(event_names(l["assignment_events"]), l["strand"])
                 iso = list(tr[l["isoform_id"]]["introns"]) if assigned and l["isoform_id"] in tr else []
                 t = traced.get((rrow["name"], tuple(l["exons"]))) or traced.get(("*", tuple(l["exons"])))
+                # an alignment processed in several regions is corrected once per region (the multi-mapper resolution keeps one record):
+                # the BED row must be the row of ONE of the logged results for this read and alignment
+                if t: t = [x for x in t if list(x) == list(map(tuple, rrow["exons"]))] or t
                 tterm = "(Some %s)" % civs(t[0]) if t else "None"
                 if list(map(tuple, rrow["exons"])) != [tuple(e) for e in l["exons"]]: n_changed += 1
                 term = "(mkcase %s %s %s %s (%s,%s) (%s,%s) %s %s)" % (cnat(by_chr[rrow["chr"]]) if rrow["chr"] in by_chr else "0%nat", cbedrow(rrow), civs(l["exons"]), cbool(assigned),
